@@ -518,6 +518,8 @@ class Ctx:
             self.pc = []
             try:
                 out = ("ret", fn())
+            except InfeasiblePath:
+                continue  # the solver refuted both outcomes of a branch under this path condition: dead path
             except catch as e:  # noqa: BLE001 - outcome of the real code on this path
                 out = ("raise", e)
             results.append((list(self.pc), out))
